@@ -22,6 +22,7 @@ import QV.Prelude
 import QV.Generated.Consts
 import QV.Generated.Tables
 import QV.Model.Compress
+import QV.Model.Rdata
 
 namespace QV.Writer
 open QV QV.Wire
@@ -155,6 +156,9 @@ namespace M
 def fail {α} (e : WriterErr) : M α := fun s => (.err e, s)
 def panic {α} : M α := fun s => (.panic, s)
 def get : M State := fun s => (.ok s, s)
+/-- read a (small) part of the state; unlike `get` this does not keep the whole state — and so
+    the buffer — alive across the writes that follow (the compiled driver updates in place) -/
+def gets {α} (f : State → α) : M α := fun s => (.ok (f s), s)
 def modify (f : State → State) : M Unit := fun s => (.ok (), f s)
 end M
 
@@ -172,9 +176,9 @@ def write (pos : Nat) (data : List UInt8) : M Unit := fun s =>
 def tryPush (data : List UInt8) : M Unit := fun s =>
   if s.available < s.cursor then (.panic, s)            -- `available - cursor` underflow
   else if s.available - s.cursor ≥ data.length then
-    match write s.cursor data s with
-    | (.ok (), s') => (.ok (), { s' with cursor := s'.cursor + data.length })
-    | r => r
+    if s.cursor + data.length ≤ s.octets.size then       -- `self.write(self.cursor, data)`
+      (.ok (), { s with octets := writeAt s.octets s.cursor data, cursor := s.cursor + data.length })
+    else (.panic, s)
   else (.err .Truncation, s)
 
 def tryPushU16 (v : Nat) : M Unit := tryPush (u16be v)
@@ -194,80 +198,71 @@ def ghostLabels (pos : Nat) (labels : List Label) (withRoot : Bool) : M Unit :=
 
 /-- push a compression pointer `0xc000 | p` (all pointer emissions of the writer go through
     here); ghost: log it -/
-def pushPointer (p : Nat) : M Unit := fun s =>
-  match tryPushU16 (49152 + p) s with
-  | (.ok (), s') => (.ok (), { s' with gPtrs := ⟨s.cursor, p, s.gCtx, s.mode⟩ :: s'.gPtrs })
-  | r => r
+def pushPointer (p : Nat) : M Unit := do
+  let ev ← M.gets fun s => (⟨s.cursor, p, s.gCtx, s.mode⟩ : PtrEv)
+  tryPushU16 (49152 + p)
+  M.modify fun s' => { s' with gPtrs := ev :: s'.gPtrs }
 
 /-- mirrors `Writer::write_uncompressed_name` -/
-def writeUncompressedName (n : WName) : M (Option Prior) := fun s =>
-  let pointer := hintPointerNew s.cursor
-  match tryPush n.wire s with
-  | (.ok (), s') =>
-    match ghostLabels s.cursor n.labels true s' with
-    | (_, s'') => (.ok (pointer.map fun p => ⟨p, n.len⟩), s'')
-  | (.err e, s') => (.err e, s')
-  | (.panic, s') => (.panic, s')
+def writeUncompressedName (n : WName) : M (Option Prior) := do
+  let cur ← M.gets (·.cursor)
+  tryPush n.wire
+  ghostLabels cur n.labels true
+  pure ((hintPointerNew cur).map fun p => ⟨p, n.len⟩)
 
 /-- mirrors `Writer::write_compressed_unhinted_name` -/
-def writeCompressedUnhintedName (n : WName) : M (Option Prior) := fun s =>
-  match compressDecision s.octets s.mode (s.mostRecentOwner.orElse fun _ => s.qname)
-          s.mostRecentNameInRdata n with
-  | .panic => (.panic, s)
-  | .err _ => (.panic, s)
-  | .ok none => writeUncompressedName n s
+def writeCompressedUnhintedName (n : WName) : M (Option Prior) := do
+  let d ← M.gets fun s => compressDecision s.octets s.mode (s.mostRecentOwner.orElse fun _ => s.qname)
+          s.mostRecentNameInRdata n
+  let cur ← M.gets (·.cursor)
+  match d with
+  | .panic => M.panic
+  | .err _ => M.panic
+  | .ok none => writeUncompressedName n
   | .ok (some m) =>
-    if m.startColumn = 0 then
-      match pushPointer m.priorPointer s with
-      | (.ok (), s') => (.ok (some ⟨m.priorPointer, n.len⟩), s')
-      | (.err e, s') => (.err e, s')
-      | (.panic, s') => (.panic, s')
-    else
-      let pointer := hintPointerNew s.cursor
-      match tryPush (n.wireTo m.startColumn) s with
-      | (.ok (), s1) =>
-        match ghostLabels s.cursor (n.labels.take m.startColumn) false s1 with
-        | (_, s2) =>
-          match pushPointer m.priorPointer s2 with
-          | (.ok (), s3) => (.ok (pointer.map fun p => ⟨p, n.len⟩), s3)
-          | (.err e, s3) => (.err e, s3)
-          | (.panic, s3) => (.panic, s3)
-      | (.err e, s1) => (.err e, s1)
-      | (.panic, s1) => (.panic, s1)
+    if m.startColumn = 0 then do
+      pushPointer m.priorPointer
+      pure (some ⟨m.priorPointer, n.len⟩)
+    else do
+      tryPush (n.wireTo m.startColumn)
+      ghostLabels cur (n.labels.take m.startColumn) false
+      pushPointer m.priorPointer
+      pure ((hintPointerNew cur).map fun p => ⟨p, n.len⟩)
 
 /-- mirrors `Writer::write_unhinted_name` -/
-def writeUnhintedName (n : WName) : M (Option Prior) := fun s =>
-  if s.mode ≠ .disabled ∧ n.wire.length > 2 then writeCompressedUnhintedName n s
-  else writeUncompressedName n s
+def writeUnhintedName (n : WName) : M (Option Prior) := do
+  let mode ← M.gets (·.mode)
+  if mode ≠ .disabled ∧ n.wire.length > 2 then writeCompressedUnhintedName n
+  else writeUncompressedName n
 
 /-- the hinted arms of `write_hinted_name`: `try_push_u16(0xc000 | p).and(Ok(Some(prior)))` -/
-def pushHinted (prior : Prior) : M (Option Prior) := fun s =>
-  match pushPointer prior.ptr s with
-  | (.ok (), s') => (.ok (some prior), s')
-  | (.err e, s') => (.err e, s')
-  | (.panic, s') => (.panic, s')
+def pushHinted (prior : Prior) : M (Option Prior) := do
+  pushPointer prior.ptr
+  pure (some prior)
 
 /-- mirrors `Writer::write_hinted_name` -/
-def writeHintedName (hint : Hint) (n : WName) : M (Option Prior) := fun s =>
-  if s.mode = .disabled ∨ n.wire.length ≤ 2 then writeUncompressedName n s
-  else if s.mode = .casePreserving then writeCompressedUnhintedName n s
+def writeHintedName (hint : Hint) (n : WName) : M (Option Prior) := do
+  let mode ← M.gets (·.mode)
+  if mode = .disabled ∨ n.wire.length ≤ 2 then writeUncompressedName n
+  else if mode = .casePreserving then writeCompressedUnhintedName n
   else match hint with
-    | .qname =>
-      match s.qname with
-      | some q => pushHinted q s
-      | none => writeCompressedUnhintedName n s
-    | .mostRecentOwner =>
-      match s.mostRecentOwner with
-      | some o => pushHinted o s
-      | none => writeCompressedUnhintedName n s
-    | .mostRecentNameInRdata =>
-      match s.mostRecentNameInRdata with
-      | some r => pushHinted r s
-      | none => writeCompressedUnhintedName n s
-    | .explicit p =>
-      if p < s.cursor then pushHinted ⟨p, n.len⟩ s
-      else writeCompressedUnhintedName n s
-    | .none => writeCompressedUnhintedName n s
+    | .qname => do
+      match ← M.gets (·.qname) with
+      | some q => pushHinted q
+      | none => writeCompressedUnhintedName n
+    | .mostRecentOwner => do
+      match ← M.gets (·.mostRecentOwner) with
+      | some o => pushHinted o
+      | none => writeCompressedUnhintedName n
+    | .mostRecentNameInRdata => do
+      match ← M.gets (·.mostRecentNameInRdata) with
+      | some r => pushHinted r
+      | none => writeCompressedUnhintedName n
+    | .explicit p => do
+      let cur ← M.gets (·.cursor)
+      if p < cur then pushHinted ⟨p, n.len⟩
+      else writeCompressedUnhintedName n
+    | .none => writeCompressedUnhintedName n
 
 /-! ### RDATA components (`src/rr/rdata/mod.rs` `Rdata::components`, `Components::next`) -/
 
@@ -276,36 +271,23 @@ inductive CompType where
   | compressibleName | uncompressibleName | fixedLen (n : Nat)
   deriving Repr, DecidableEq, Inhabited
 
-/-- one arm of the `match rr_type` in `Rdata::components`: type mnemonics, optional class guard,
-    the component types of the constructor it calls -/
-structure CompArm where
-  types : List String
-  classGuard : Option String
-  comps : List CompType
-  deriving Repr, DecidableEq, Inhabited
+/-- a generated component type tag: ("C",_) compressible name, ("U",_) uncompressible name,
+    ("F",n) `FixedLen(n)` -/
+def convCompType (t : String × Nat) : Option CompType :=
+  if t.1 = "C" then some .compressibleName
+  else if t.1 = "U" then some .uncompressibleName
+  else if t.1 = "F" then some (.fixedLen t.2)
+  else none
 
-/-- the arms of `Rdata::components` in source order (the fallback `_ => for_nameless` is `[]`).
-    Checked against the source by the extractor (`QV.Gen.componentsArms`, see
-    `Proofs/Writer.lean: componentsTable_eq_generated`). -/
-def componentsTable : List CompArm :=
-  [ ⟨["NS", "MD", "MF", "CNAME", "MB", "MG", "MR", "PTR"], none, [.compressibleName]⟩,
-    ⟨["A"], some "CH", [.uncompressibleName]⟩,
-    ⟨["SOA"], none, [.compressibleName, .compressibleName]⟩,
-    ⟨["MINFO"], none, [.compressibleName, .compressibleName]⟩,
-    ⟨["MX"], none, [.fixedLen 2, .compressibleName]⟩,
-    ⟨["SRV"], some "IN", [.fixedLen 6, .uncompressibleName]⟩ ]
-
-def armMatches (cls ty : Nat) (a : CompArm) : Bool :=
-  a.types.any (fun t => (Gen.typeConsts.lookup t) == some ty) &&
-  (match a.classGuard with
-   | none => true
-   | some c => (Gen.classConsts.lookup c) == some cls)
-
-/-- mirrors `Rdata::components(class, rr_type)`: the `types` of the `Components` iterator -/
-def componentTypes (cls ty : Nat) : List CompType :=
-  match componentsTable.find? (armMatches cls ty) with
-  | some a => a.comps
-  | none => []
+/-- mirrors `Rdata::components(class, rr_type)`: the `types` of the `Components` iterator.
+    The `match rr_type` arms and the `types: &[…]` lists are *generated from the source*
+    (`QV.Gen.rdataComponentsArms`, `QV.Gen.rdataComponentTypes`, extractor `extract_rdata.py`);
+    `none` = the generated tables do not have the expected shape. -/
+def componentTypes (cls ty : Nat) : Option (List CompType) :=
+  match QV.Rdata.componentTypesOf
+      (QV.Rdata.lookup Gen.rdataComponentsArms Gen.rdataComponentsDefault cls ty) with
+  | some tys => tys.mapM convCompType
+  | none => none
 
 /-- `hint_pointer_vec.push(..)`: silently dropped when full or absent -/
 def hvPush (p : Option Nat) : M Unit := M.modify fun s =>
@@ -344,6 +326,12 @@ def writeComponents : List CompType → List UInt8 → M Unit
       tryPush (rdata.take k)
       writeComponents ts (rdata.drop k)
 
+/-- `for component in rdata.components(class, rr_type)` -/
+def writeRdata (cls ty : Nat) (rdata : List UInt8) : M Unit :=
+  match componentTypes cls ty with
+  | some ts => writeComponents ts rdata
+  | none => M.panic          -- the generated dispatch tables are malformed
+
 /-- `Ttl::from(u32)` (src/rr/ttl.rs): values above `i32::MAX` become 0 -/
 def ttlFrom (raw : Nat) : Nat := if raw > 2147483647 then 0 else raw
 
@@ -356,16 +344,16 @@ def addRr (hint : Hint) (owner : WName) (ty cls ttl : Nat) (rdata : List UInt8) 
   tryPushU16 ty
   tryPushU16 cls
   tryPushU32 ttl
-  let s ← M.get
-  if s.available < s.cursor then M.panic
-  else if s.available - s.cursor < 2 then M.fail .Truncation
+  let av ← M.gets (·.available)
+  let rdlengthStart ← M.gets (·.cursor)
+  if av < rdlengthStart then M.panic
+  else if av - rdlengthStart < 2 then M.fail .Truncation
   else do
-    let rdlengthStart := s.cursor
     M.modify fun s => { s with cursor := s.cursor + 2 }
-    writeComponents (componentTypes cls ty) rdata
-    let s' ← M.get
-    if s'.cursor < rdlengthStart + 2 then M.panic
-    else write rdlengthStart (u16be ((s'.cursor - rdlengthStart - 2) % 65536))
+    writeRdata cls ty rdata
+    let cur' ← M.gets (·.cursor)
+    if cur' < rdlengthStart + 2 then M.panic
+    else write rdlengthStart (u16be ((cur' - rdlengthStart - 2) % 65536))
 
 /-- mirrors `Writer::add_rrset`: the number of records added -/
 def addRrset (hint : Hint) (owner : WName) (ty cls ttl : Nat) : List (List UInt8) → Nat → M Nat
@@ -418,6 +406,7 @@ structure Template where
   tsig : Option Tsig
   gLabels : List Nat
   gPtrs : List PtrEv
+  gCtx : NameCtx
   deriving Repr, Inhabited
 
 /-- mirrors `Writer::into_template` -/
@@ -429,7 +418,7 @@ def intoTemplate (s : State) : Out WriterErr Template :=
              qdcount := s.qdcount, ancount := s.ancount, nscount := s.nscount,
              arcount := s.arcount, qname := s.qname, mostRecentOwner := s.mostRecentOwner,
              mostRecentNameInRdata := s.mostRecentNameInRdata, mode := s.mode, edns := s.edns,
-             tsig := s.tsig, gLabels := s.gLabels, gPtrs := s.gPtrs }
+             tsig := s.tsig, gLabels := s.gLabels, gPtrs := s.gPtrs, gCtx := s.gCtx }
 
 /-- mirrors `Writer::try_from_template_impl` -/
 def tryFromTemplateImpl (buf : Bytes) (t : Template) (tsig : Option Tsig) : Out WriterErr State :=
@@ -443,7 +432,7 @@ def tryFromTemplateImpl (buf : Bytes) (t : Template) (tsig : Option Tsig) : Out 
                qdcount := t.qdcount, ancount := t.ancount, nscount := t.nscount,
                arcount := t.arcount, qname := t.qname, mostRecentOwner := t.mostRecentOwner,
                mostRecentNameInRdata := t.mostRecentNameInRdata, mode := t.mode, edns := t.edns,
-               tsig := tsig, gLabels := t.gLabels, gPtrs := t.gPtrs }
+               tsig := tsig, gLabels := t.gLabels, gPtrs := t.gPtrs, gCtx := t.gCtx }
 
 /-- mirrors `Writer::try_from_template` -/
 def tryFromTemplate (buf : Bytes) (t : Template) : Out WriterErr State :=
@@ -494,16 +483,15 @@ def setRcode (rcode : Nat) : M Unit := do
     | none => s
 
 /-- mirrors `set_extended_rcode` -/
-def setExtendedRcode (raw : Nat) : M Unit := fun s =>
-  match s.edns with
+def setExtendedRcode (raw : Nat) : M Unit := do
+  match ← M.gets (·.edns) with
   | some e =>
-    if raw > 4095 then (.err .ExtendedRcodeOverflow, s)
-    else
-      match setHdr Gen.RCODE_BYTE (fun b => (b &&& ~~~ (UInt8.ofNat Gen.RCODE_MASK)) |||
-              (UInt8.ofNat (raw % 256) &&& UInt8.ofNat Gen.RCODE_MASK)) s with
-      | (.ok (), s') => (.ok (), { s' with edns := some { e with upper := (raw / 16) % 256 } })
-      | r => r
-  | none => (.err .NotEdns, s)
+    if raw > 4095 then M.fail .ExtendedRcodeOverflow
+    else do
+      setHdr Gen.RCODE_BYTE (fun b => (b &&& ~~~ (UInt8.ofNat Gen.RCODE_MASK)) |||
+              (UInt8.ofNat (raw % 256) &&& UInt8.ofNat Gen.RCODE_MASK))
+      M.modify fun s' => { s' with edns := some { e with upper := (raw / 16) % 256 } }
+  | none => M.fail .NotEdns
 
 /-- getters: `id qr aa tc rd ra opcode rcode extended_rcode` -/
 def getId (s : State) : Nat := be16 s.octets Gen.ID_START
@@ -534,21 +522,24 @@ def setLimit (newLimit : Nat) : M Unit := fun s =>
 
 def setCompressionMode (m : CMode) : M Unit := M.modify fun s => { s with mode := m }
 
+/-- the closure passed to `with_rollback` in `add_question` -/
+def addQuestionBody (qname : WName) (qtype qclass : Nat) : M Unit := do
+  setCtx .qname
+  let p ← writeUnhintedName qname
+  setCtx .none
+  M.modify fun s => if s.qdcount = 0 then { s with qname := p } else s
+  tryPushU16 qtype
+  tryPushU16 qclass
+
 /-- mirrors `add_question` -/
-def addQuestion (qname : WName) (qtype qclass : Nat) : M Unit := fun s =>
-  if s.sect ≠ .question then (.err .OutOfOrder, s)
-  else if s.qdcount + 1 > 65535 then (.err .CountOverflow, s)
-  else
-    match withRollback (do
-        setCtx .qname
-        let p ← writeUnhintedName qname
-        setCtx .none
-        let st ← M.get
-        if st.qdcount = 0 then M.modify fun s => { s with qname := p }
-        tryPushU16 qtype
-        tryPushU16 qclass) s with
-    | (.ok (), s') => (.ok (), { s' with qdcount := s'.qdcount + 1, rrStart := s'.cursor })
-    | r => r
+def addQuestion (qname : WName) (qtype qclass : Nat) : M Unit := do
+  let sect ← M.gets (·.sect)
+  let qd ← M.gets (·.qdcount)
+  if sect ≠ .question then M.fail .OutOfOrder
+  else if qd + 1 > 65535 then M.fail .CountOverflow
+  else do
+    withRollback (addQuestionBody qname qtype qclass)
+    M.modify fun s' => { s' with qdcount := s'.qdcount + 1, rrStart := s'.cursor }
 
 inductive RrSection where
   | answer | authority | additional
@@ -585,9 +576,9 @@ def addRrOp (sec : RrSection) (hint : Hint) (owner : WName) (ty cls ttlRaw : Nat
   withRollback (do
     changeSection sec
     addRr hint owner ty cls (ttlFrom ttlRaw) rdata
-    let s ← M.get
-    if getCount sec s + 1 > 65535 then M.fail .CountOverflow
-    else setCount sec (getCount sec s + 1))
+    let c ← M.gets (getCount sec)
+    if c + 1 > 65535 then M.fail .CountOverflow
+    else setCount sec (c + 1))
 
 /-- mirrors `add_answer_rrset` / `add_authority_rrset` / `add_additional_rrset`;
     `rdatas` = `rdatas.iter()` (non-empty by construction of `RdataSet`) -/
@@ -596,10 +587,10 @@ def addRrsetOp (sec : RrSection) (hint : Hint) (owner : WName) (ty cls ttlRaw : 
   withRollback (do
     changeSection sec
     let n ← addRrset hint owner ty cls (ttlFrom ttlRaw) rdatas 0
-    let s ← M.get
+    let c ← M.gets (getCount sec)
     if n > 65535 then M.fail .CountOverflow
-    else if getCount sec s + n > 65535 then M.fail .CountOverflow
-    else setCount sec (getCount sec s + n))
+    else if c + n > 65535 then M.fail .CountOverflow
+    else setCount sec (c + n))
 
 /-- mirrors `clear_rrs` -/
 def clearRrs : M Unit := M.modify fun s =>
@@ -639,17 +630,19 @@ def tsigAlgName : TsigMode → WName
   | .request a _ | .response a _ _ | .subsequent a _ _ => algName a
   | .unsigned n => n
 
+/-- the space `set_tsig` reserves -/
+def reservedLenOf (mode : TsigMode) (rr : TsigRr) : Nat :=
+  match mode with
+  | .request a _ | .response a _ _ | .subsequent a _ _ => signedLen rr a
+  | .unsigned n => unsignedLen rr n
+
 /-- mirrors `set_tsig` -/
 def setTsig (mode : TsigMode) (rr : TsigRr) : M Unit := fun s =>
   if s.tsig.isSome then (.err .AlreadyTsig, s)
-  else
-    let reservedLen := match mode with
-      | .request a _ | .response a _ _ | .subsequent a _ _ => signedLen rr a
-      | .unsigned n => unsignedLen rr n
-    if s.cursor + reservedLen > s.available then (.err .Truncation, s)
-    else if s.arcount + 1 > 65535 then (.err .CountOverflow, s)
-    else (.ok (), { s with arcount := s.arcount + 1, available := s.available - reservedLen,
-                           tsig := some ⟨mode, reservedLen, rr⟩ })
+  else if s.cursor + reservedLenOf mode rr > s.available then (.err .Truncation, s)
+  else if s.arcount + 1 > 65535 then (.err .CountOverflow, s)
+  else (.ok (), { s with arcount := s.arcount + 1, available := s.available - reservedLenOf mode rr,
+                         tsig := some ⟨mode, reservedLenOf mode rr, rr⟩ })
 
 /-- mirrors `update_time_signed` -/
 def updateTimeSigned (t : List UInt8) : M Unit := fun s =>
@@ -669,37 +662,54 @@ def unwrap {α} (f : M α) : M α := fun s =>
   | (.err _, s') => (.panic, s')
   | r => r
 
-/-- mirrors `finish_with_mac`; `macFn tsig message` stands for `sign_request` /
-    `sign_response` / `sign_subsequent` (not called in `Unsigned` mode). Result: final length
-    and MAC. -/
-def finishWithMac (macFn : Tsig → List UInt8 → List UInt8) : M (Nat × Option (List UInt8)) := do
-  let s ← M.get
-  write Gen.QDCOUNT_START (u16be s.qdcount)
-  write Gen.ANCOUNT_START (u16be s.ancount)
-  write Gen.NSCOUNT_START (u16be s.nscount)
-  write Gen.ARCOUNT_START (u16be s.arcount)
-  match s.edns with
+/-- `finish_with_mac`, first part: the four counts are written into the header -/
+def finishCounts (qd an ns ar : Nat) : M Unit := do
+  write Gen.QDCOUNT_START (u16be qd)
+  write Gen.ANCOUNT_START (u16be an)
+  write Gen.NSCOUNT_START (u16be ns)
+  write Gen.ARCOUNT_START (u16be ar)
+
+/-- `finish_with_mac`, second part: the OPT record (`if let Some(ref edns) = self.edns`) -/
+def finishOpt (edns : Option Edns) : M Unit :=
+  match edns with
   | some e => do
     M.modify fun s => { s with available := s.available + Gen.OPT_RECORD_SIZE }
     unwrap (addRr .none WName.root T_OPT e.payload ((e.upper * 16777216) % 4294967296) [])
   | none => pure ()
-  match s.tsig with
+
+/-- `finish_with_mac`, third part: the TSIG record (`if let Some(tsig) = self.tsig.take()`);
+    `macFn tsig message` stands for `sign_request` / `sign_response` / `sign_subsequent`
+    (not called in `Unsigned` mode). Result: final length and MAC. -/
+def finishTsig (macFn : Tsig → List UInt8 → List UInt8) (tsig : Option Tsig) :
+    M (Nat × Option (List UInt8)) :=
+  match tsig with
   | some ts => do
-    let s1 ← M.get
-    if s1.cursor > s1.octets.size then M.panic            -- `&self.octets[0..self.cursor]`
-    else do
-      let message := (s1.octets.extract 0 s1.cursor).toList
+    -- `let message = &self.octets[0..self.cursor]`
+    let message ← M.gets fun s1 =>
+      if s1.cursor > s1.octets.size then none else some (s1.octets.extract 0 s1.cursor).toList
+    match message with
+    | none => M.panic
+    | some message => do
       let mac : Option (List UInt8) := match ts.mode with
         | .unsigned _ => none
         | _ => some (macFn ts message)
       let rdata := tsigRdata ts.rr (tsigAlgName ts.mode) (mac.getD [])
       M.modify fun s => { s with tsig := none, available := s.available + ts.reservedLen }
       unwrap (addRr .none ts.rr.keyName T_TSIG QC_ANY (ttlFrom 0) rdata)
-      let s2 ← M.get
-      pure (s2.cursor, mac)
+      let len ← M.gets (·.cursor)
+      pure (len, mac)
   | none => do
-    let s2 ← M.get
-    pure (s2.cursor, none)
+    let len ← M.gets (·.cursor)
+    pure (len, none)
+
+/-- mirrors `finish_with_mac` -/
+def finishWithMac (macFn : Tsig → List UInt8 → List UInt8) : M (Nat × Option (List UInt8)) := do
+  let (qd, an, ns, ar) ← M.gets fun s => (s.qdcount, s.ancount, s.nscount, s.arcount)
+  let edns ← M.gets (·.edns)
+  let tsig ← M.gets (·.tsig)
+  finishCounts qd an ns ar
+  finishOpt edns
+  finishTsig macFn tsig
 
 /-- `finish`: the octets of the finished message (the first `len` octets of the buffer) and
     the MAC -/
